@@ -44,6 +44,9 @@ spec fn cursor_ok(p: Parser) -> bool { p.pos < p.token_list@.len() && p.token_li
     ensures
         /*#follow.a_comment_may_follow_a_deletion_output C13*/ r matches Err(RuleSyntaxError::DeleteErr(t)) ==> t.kind != TokenKind::Comment,
         /*#follow.a_comment_may_follow_a_metathesis_output C13*/ r matches Err(RuleSyntaxError::MetathErr(t)) ==> t.kind != TokenKind::Comment,
+        // `//` is the documented synonym of `|`: wherever `|` may follow, `//` may
+        /*#follow.a_double_slash_may_follow_a_deletion_output C13*/ r matches Err(RuleSyntaxError::DeleteErr(t)) ==> t.kind != TokenKind::DubSlash,
+        /*#follow.a_double_slash_may_follow_a_metathesis_output C13*/ r matches Err(RuleSyntaxError::MetathErr(t)) ==> t.kind != TokenKind::DubSlash,
 //@ end
 //@ loop Parser::get_output 0
     invariant self.pos < self.token_list@.len() || self.curr_tkn.kind == TokenKind::Eol, self.token_list == old(self).token_list,
